@@ -61,7 +61,7 @@ def _run(res, work):
     c = rep.get("counters", {})
     evaluations = sum(c.get(k, 0) for k in ("ni_triples", "calls_checked", "globals_checked", "inventory_items_compared",
                                                "lowered_types_compared", "target_symbols_checked", "nm_symbols_checked",
-                                               "noreturn_calls_checked", "inline_calls_checked", "probes"))
+                                               "noreturn_calls_checked", "inline_calls_checked", "probes", "cpp_calls_checked", "cpp_symbols_checked"))
     res.coverage.update({
         "obligations": lean["obligations"], "discharged": lean["discharged"],
         "checker_cmd": "python3 translator/translate.py /repo lean/BindgenModel/Generated && lake build BindgenModel.Props.C04 bgmodel && lake env lean <#print axioms audit>" + (" && lake env leanchecker BindgenModel.Props.C04" if res.tier == "thorough" else ""),
